@@ -67,14 +67,14 @@ private theorem rel_self {p : Profile} {g : Graph} {s : St Store} (h : Inv p g s
 /-- `read_and_cache` (raw register read / cache miss), including the device failure path. -/
 theorem prim_preserve_readAndCache {p : Profile} {g : Graph} {s : St Store} {n : NodeId} {r : Reg}
     {a : Int} (buflen : Nat) (hI : Inv p g s.cache s.dev) (hn : g[n]? = some (.reg r))
-    (hk : KeyAddr p r a) :
+    (hk : KeyAddr p g r a) :
     Inv p g (readAndCache defaultCache g n r a buflen s).2.cache
       (readAndCache defaultCache g n r a buflen s).2.dev :=
   (sim_readAndCache buflen hn hk s _ (rel_self hI)).2.1.2
 
 /-- `with_cache_or_read` after the address is known (hit or miss). -/
 theorem prim_preserve_cachedRead {p : Profile} {g : Graph} {s : St Store} {n : NodeId} {r : Reg}
-    {a : Int} (hI : Inv p g s.cache s.dev) (hn : g[n]? = some (.reg r)) (hk : KeyAddr p r a) :
+    {a : Int} (hI : Inv p g s.cache s.dev) (hn : g[n]? = some (.reg r)) (hk : KeyAddr p g r a) :
     Inv p g (cachedRead defaultCache g n r a s).2.cache (cachedRead defaultCache g n r a s).2.dev :=
   (sim_cachedRead hn hk s _ (rel_self hI)).2.1.2
 
@@ -82,7 +82,7 @@ theorem prim_preserve_cachedRead {p : Profile} {g : Graph} {s : St Store} {n : N
 device write and a `pPort` that is not a port.  This is where `Declared` is needed. -/
 theorem prim_preserve_writeAt {p : Profile} {g : Graph} (hD : Declared p g) {s : St Store}
     {n : NodeId} {r : Reg} {a : Int} {buf : Bytes} (hI : Inv p g s.cache s.dev)
-    (hn : g[n]? = some (.reg r)) (hk : KeyAddr p r a) (hlen : buf.length = r.len) :
+    (hn : g[n]? = some (.reg r)) (hk : KeyAddr p g r a) (hlen : buf.length = r.len) :
     Inv p g (writeAt defaultCache g n r a buf s).2.cache (writeAt defaultCache g n r a buf s).2.dev :=
   (sim_writeAt hD hn hk hlen s _ (rel_self hI)).2.1.2
 
@@ -272,7 +272,7 @@ example :
 before — for WriteThrough, WriteAround and NoCache. -/
 theorem own_write_visible {p : Profile} {g : Graph} (hD : Declared p g) {s s' : St Store}
     {n : NodeId} {r : Reg} {a : Int} {buf : Bytes} (hI : Inv p g s.cache s.dev)
-    (hn : g[n]? = some (.reg r)) (hk : KeyAddr p r a) (hlen : buf.length = r.len)
+    (hn : g[n]? = some (.reg r)) (hk : KeyAddr p g r a) (hlen : buf.length = r.len)
     (hw : writeAt defaultCache g n r a buf s = (.ok (), s')) :
     (cachedRead defaultCache g n r a s').1 = .ok buf := by
   have hI' := prim_preserve_writeAt hD hI hn hk hlen
